@@ -53,7 +53,7 @@ def step (st : St) (op res : String) : St × List String :=
                   "br:rsetup.ok" :: (if res == "ok" then [] else ["DIVERGE dom model=ok"]))
       | .error _ => ({}, "br:rsetup.err" :: (if res == "err" then [] else ["DIVERGE dom model=err"]))
     | _, _, _ => ({}, ["DIVERGE drift unparsed-op"])
-  | ["rreq", _, mac, _] =>
+  | "rreq" :: _ :: mac :: _ =>       -- an optional fifth token is the request's option 50: no model input
     match st.cfg, parseHex mac, words res with
     | some cfg, some mac, t0 :: t1 :: rest =>
       match t0.toInt?, t1.toInt?, parseReqRes rest with
